@@ -2,11 +2,13 @@
 //   T <name hex> <value hex>     parse the value with the registered header, write, parse that, write
 //   CC <i[:delta]>...             CacheControl built through the API (i = model index), written, parsed back
 //   TM <name hex> <value hex>   as T, but parsed by the request parser out of a message (value not terminated)
+//   DT <seconds>                 Date built from whole seconds since the epoch: written, parsed, written again
 //   CL <n>   EN <C|T> <i>   CN <i>   EX <i>   HO <host hex> <port>   SV <token hex>...
 //   CQ <top> <sub> <q>           ContentType(MediaType(top, sub) with quality q/100) through the header API: written, parsed
 //                                (parse, and the request parser on a whole message), written again
 //     -> CQ <text hex> <q parsed> <q parsed by the request parser> <second text hex>
 //   AQ <text hex>                Accept filled from text: the quality of each media range
+//   LT <message hex> <name hex>... parse the request, look every name up in the TYPED collection (tryGet), write the header found
 //   L <message hex> <name hex>... parse the request, look every name up in the raw header collection
 #include <pistache/http.h>
 #include <pistache/http_headers.h>
@@ -185,6 +187,26 @@ static std::string handle(const std::string& line)
             b.parse(write(a));
             return "EX " + pv::hex(write(a)) + " " + std::to_string(static_cast<int>(b.expectation()));
         }
+        if (t[0] == "DT" && t.size() == 2)
+        {
+            // Date built through the API from whole seconds since the epoch: written, parsed by the header, written again
+            const long long secs = atoll(t[1].c_str());
+            Header::Date a { FullDate { std::chrono::system_clock::time_point { std::chrono::seconds { secs } } } }, b;
+            std::string w = write(a);
+            try
+            {
+                b.parse(w);
+            }
+            catch (const std::exception&)
+            {
+                return "DT " + pv::hex(w) + " err";
+            }
+            const long long back = std::chrono::duration_cast<std::chrono::seconds>(b.fullDate().date().time_since_epoch()).count();
+            const long long ns = std::chrono::duration_cast<std::chrono::nanoseconds>(b.fullDate().date().time_since_epoch()).count();
+            if (ns != back * 1000000000LL)
+                return "DT " + pv::hex(w) + " fraction";
+            return "DT " + pv::hex(w) + " " + std::to_string(back) + " " + pv::hex(write(b));
+        }
         if (t[0] == "HO" && t.size() == 3)
         {
             Header::Host a(pv::unhex(t[1]), Port(static_cast<uint16_t>(atoi(t[2].c_str())))), b;
@@ -251,6 +273,22 @@ static std::string handle(const std::string& line)
             {
                 auto r = p.request.headers().tryGetRaw(pv::unhex(t[i]));
                 out += " " + (r ? ("S" + pv::hex(r->value())) : std::string("N"));
+            }
+            return out;
+        }
+        if (t[0] == "LT" && t.size() >= 2)
+        {
+            // the typed view of a parsed message: every name looked up with tryGet(name), the header written back
+            std::string msg = pv::unhex(t[1]);
+            RequestParser p(1 << 20);
+            p.feed(msg.data(), msg.size());
+            if (p.parse() != Private::State::Done)
+                return "LT notdone";
+            std::string out = "LT";
+            for (size_t i = 2; i < t.size(); ++i)
+            {
+                auto h = p.request.headers().tryGet(pv::unhex(t[i]));
+                out += " " + (h ? ("T" + pv::hex(write(*h))) : std::string("N"));
             }
             return out;
         }
